@@ -418,4 +418,11 @@ def c13(out, tv):
                     break
             if not nb:
                 v.append(('needed-by-empty', f'prompt for {name} quotes no line'))
+    # the final report (what the CLI prints as "needed by"): every line quoted under a missing input stopped at a missing read of it
+    if out.exc is None and isinstance(getattr(out, 'unmet_inputs', None), dict):
+        for name, lines in out.unmet_inputs.items():
+            wrong = [l for l in lines if last_outcome.get(l) != ('missing_input', name)]
+            if wrong:
+                v.append(('report-quotes-wrong-lines', f'the report lists {wrong[:2]} as needing {name}, but their latest evaluation ended {[last_outcome.get(l) for l in wrong[:2]]}'))
+                break
     return v
